@@ -176,6 +176,7 @@ def c16(rec, tier):
     f2_emit.run_provenance(rec, S)
     f2_emit.run_constant_kinds(rec, S, F)
     f4_sched.launch_transfers_callee_slot(rec, F)
+    f9_casts.run_todo_sites(rec, F)
 
 
 def c17(rec, tier):
